@@ -582,7 +582,7 @@ impl Engine for CrashEngine {
                 let mut o = run_workload(&case);
                 if let Some(v) = &o.violation {
                     if v.sig.contains("hang") {
-                        std::env::set_var("LVMC_DEADLINE_MS", "12000");
+                        std::env::set_var("LVMC_DEADLINE_MS", "30000");
                         let c2: CrashCase = serde_json::from_value(v.case.clone()).unwrap();
                         let again = run_workload(&c2);
                         std::env::remove_var("LVMC_DEADLINE_MS");
